@@ -270,7 +270,7 @@ def check_single(ci, spec):
     # constructors round trip
     l2 = npc.LegCharge.from_qflat(ci, leg.to_qflat(), leg.qconj)
     same_phys(l2, None, 'from_qflat')
-    if leg.is_blocked():
+    if leg.is_blocked() and ci.qnumber:
         l3 = npc.LegCharge.from_qdict(ci, leg.to_qdict(), leg.qconj)
         same_phys(l3, None, 'from_qdict')
         _, l3s = l3.sort(bunch=True)
@@ -375,7 +375,7 @@ def run_unit(unit):
                     ev += 1
                     case = dict(kind='pipe', ch=ch, legs=[[list(map(list, s[0])), list(s[1]), s[2]] for s in specs], qconj=qc, sort=so, bunch=bu)
                     try:
-                        pipe, imap = check_pipe(legs, qc, so, bu, with_array=(so == bu) if kind != 'triples' else (so and bu))
+                        pipe, imap = check_pipe(legs, qc, so, bu, with_array=(so and bu))
                         # nested pipe: pipe of (pipe, first leg)
                         if kind == 'pairs' and so and bu and qc == 1:
                             check_pipe([pipe, legs[0]], -1, True, True, with_array=False)
